@@ -5,6 +5,7 @@ package main
 // operators the specification defines verbatim (Operators.tla: f, p, g, h).
 
 import (
+	"fmt"
 	"github.com/onheap/eval"
 )
 
@@ -111,6 +112,16 @@ func customOps(l *Log) map[string]eval.Operator {
 			logCall("g", ps, ps[0], nil)
 			return ps[0], nil
 		},
+		// boom: a registered operator that panics (on the argument 2); whatever the engine does with a
+		// panicking operator, it does the same with and without events
+		"boom": func(_ *eval.Ctx, ps []eval.Value) (eval.Value, error) {
+			if len(ps) == 0 || ps[0] == int64(2) {
+				logCall("boom", ps, nil, sentinel("op:boom"))
+				panic("boom")
+			}
+			logCall("boom", ps, ps[0], nil)
+			return ps[0], nil
+		},
 		"h": func(_ *eval.Ctx, ps []eval.Value) (eval.Value, error) {
 			l.HC++
 			logCall("h", ps, l.HC, nil)
@@ -122,14 +133,15 @@ func customOps(l *Log) map[string]eval.Operator {
 var varNames = []string{"x", "y", "z", "n", "m", "s", "l", "e"}
 
 type ConfOpts struct {
-	Mask        int    // bit0 cf, bit1 rn, bit2 fe, bit3 ro
-	How         string // "opt": programmatic; "dir": by ;;;; directive; "mix": directive overrides opposite option
-	Undefined   bool
-	Events      string // "", "report", "debug"
-	Infix       bool
-	Costs       map[string]float64
-	Spell       int // how a directive is spelled (How == "dir")
-	NoStateless bool
+	Mask          int    // bit0 cf, bit1 rn, bit2 fe, bit3 ro
+	How           string // "opt": programmatic; "dir": by ;;;; directive; "mix": directive overrides opposite option
+	Undefined     bool
+	Events        string // "", "report", "debug"
+	Infix         bool
+	Costs         map[string]float64
+	Spell         int // how a directive is spelled (How == "dir")
+	NoStateless   bool
+	ManyStateless int // that many further names declared stateless (before and after p in the list, unsorted)
 }
 
 var optNames = []eval.CompileOption{eval.ConstantFolding, eval.ReduceNesting, eval.FastEvaluation, eval.Reordering}
@@ -160,8 +172,14 @@ func newConf(o ConfOpts, l *Log) (*eval.Config, string) {
 	for n, f := range customOps(l) {
 		cc.OperatorMap[n] = f
 	}
+	for k := 0; k < o.ManyStateless/2; k++ {
+		cc.StatelessOperators = append(cc.StatelessOperators, fmt.Sprintf("q%02d", (k*7)%o.ManyStateless))
+	}
 	if !o.NoStateless {
 		cc.StatelessOperators = append(cc.StatelessOperators, "p")
+	}
+	for k := o.ManyStateless / 2; k < o.ManyStateless; k++ {
+		cc.StatelessOperators = append(cc.StatelessOperators, fmt.Sprintf("%s%02d", []string{"q", "a", "zz"}[k%3], k))
 	}
 	cc.ConstantMap["K"] = int64(3)
 	cc.ConstantMap["KT"] = true
